@@ -240,3 +240,7 @@ def run(ctx: Context) -> None:  # noqa: F811
     ctx.rep.rule('C20.R6', 'only failures of the network itself are mapped to ConnectError / ConnectTimeout by the backends (nothing else becomes retryable)')
     backend.connect_map_keys(ctx, 'C20.R6')
     ctx.rep.explanation = (ctx.rep.explanation or '') + ' R6 (transport layer): the connect-family exception maps of the real backends have only network failure classes as keys.'
+    from . import plumb
+
+    ctx.rep.rule('C20.R7', 'the configured retries value reaches every connection constructor unchanged (store link + pass link)')
+    plumb.plumbing(ctx, 'C20.R7', ['retries'])
